@@ -80,8 +80,19 @@ func (s *State) execCallWithArgs(c *ssa.CallCommon, instr ssa.Value, args []Val,
 		}
 		// external library function without a specification: opaque and effect-free on program-visible state
 		s.eng.assumptionsUsed["external function "+callee.String()+" is treated as opaque and effect-free on the program's heap"] = true
-		s.bumpAlloc()
+		s.bumpAllocTyped(resultTags(c), false)
 		return s.freshResult(c, "ext:"+callee.Name())
+	}
+	// the exit hook (os.Exit behind a package variable): recorded as a ghost event, the call returns in the model
+	if fvx := s.valueOf(c.Value); len(fvx.Terms) == 1 && fvx.Terms[0] == sym("g:getoptions.exitFn") {
+		if _, ok := s.eng.ghostDecls["$exits"]; ok {
+			cur := s.ghostGet("$exits", tInt)
+			s.ghost["$exits"] = mkInt(app("+", cur.Terms[0], "1"))
+			s.ghostGet("$exitcode", tInt)
+			s.ghost["$exitcode"] = mkInt(args[0].Terms[0])
+		}
+		s.eng.assumptionsUsed["the exit hook exitFn is modelled as a ghost event ($exits, $exitcode); in production it is os.Exit and does not return"] = true
+		return Val{}
 	}
 	// dynamic call through a function value
 	if ft := s.eng.funcTypeSpec(c.Value.Type()); ft != nil {
@@ -96,10 +107,69 @@ func (s *State) execCallWithArgs(c *ssa.CallCommon, instr ssa.Value, args []Val,
 	return s.freshResult(c, "dyn")
 }
 
-func (s *State) bumpAlloc() {
+func (s *State) bumpAlloc() { s.bumpAllocTyped(nil, true) }
+
+// bumpAllocTyped advances the allocation frontier past the objects a callee (or loop) may have created.
+// Unless unknown, every object in the gap has one of the allowed dynamic types (or is hidden garbage).
+func (s *State) bumpAllocTyped(allowed []string, unknown bool) {
+	old := s.alloc
 	na := s.fresh("alloc", sInt)
-	s.assume(app(">=", na, s.alloc))
+	s.assume(app(">=", na, old))
 	s.alloc = na
+	if unknown {
+		s.allocUnknown = true
+		return
+	}
+	s.noteAllocTags(allowed...)
+}
+
+func (s *State) noteAllocTags(tags ...string) {
+	for _, t := range tags {
+		if t == "" || s.allocTags[t] {
+			continue
+		}
+		// copy on write: the map is shared between forked states
+		n := make(map[string]bool, len(s.allocTags)+1)
+		for k := range s.allocTags {
+			n[k] = true
+		}
+		n[t] = true
+		s.allocTags = n
+	}
+}
+
+// emitAllocSummary states once (per allocation frontier) which dynamic types the objects created since function
+// entry can have; typed quantifiers over references need it to exclude objects of other types.
+func (s *State) emitAllocSummary() {
+	if s.allocUnknown || s.entry == nil || s.summaryFor == s.alloc {
+		return
+	}
+	s.summaryFor = s.alloc
+	alts := []string{eq("(rtype r!g)", strLit("$hidden")), eq("(rtype r!g)", strLit("$error")), eq("(rtype r!g)", strLit("$iface")), eq("(rtype r!g)", strLit("$closure"))}
+	var ts []string
+	for t := range s.allocTags {
+		ts = append(ts, t)
+	}
+	sortStrings(ts)
+	for _, t := range ts {
+		alts = append(alts, eq("(rtype r!g)", strLit(t)))
+	}
+	s.assume(fmt.Sprintf("(forall ((r!g Int)) (! (=> (and (<= %s r!g) (< r!g %s)) %s) :pattern ((rtype r!g))))", s.entry.Alloc, s.alloc, or(alts...)))
+}
+
+// resultTags: dynamic types of the objects a call may hand back through its results.
+func resultTags(c *ssa.CallCommon) []string {
+	var out []string
+	sig := c.Signature()
+	for i := 0; i < sig.Results().Len(); i++ {
+		for _, l := range shapeOf(sig.Results().At(i).Type()) {
+			if l.Tag != "" {
+				out = append(out, l.Tag)
+			}
+		}
+		// slices/strings/arrays returned by value carry no references of their own here
+	}
+	return out
 }
 
 func (s *State) checkFrameAll(where, what string) {
@@ -205,6 +275,12 @@ func (s *State) callContract(spec *FuncSpec, callee *ssa.Function, c *ssa.CallCo
 		s.havocAll()
 	} else {
 		for _, it := range s.evalFrameItems(spec.Modifies, env) {
+			if it.ghost != "" {
+				t := env.resolveTypeIn(s.eng.ghostDecls[it.ghost], s.eng.ghostPkg[it.ghost])
+				s.ghostGet(it.ghost, t)
+				s.ghost[it.ghost] = s.freshVal("ghost:"+it.ghost, t)
+				continue
+			}
 			for _, b := range it.bases {
 				if it.whole {
 					s.checkFrameWhole(b.base, where, "call of "+name)
@@ -226,7 +302,15 @@ func (s *State) callContract(spec *FuncSpec, callee *ssa.Function, c *ssa.CallCo
 			}
 		}
 	}
-	s.bumpAlloc()
+	{
+		// a contracted callee declares what it may allocate (fresh results included) with "allocates"
+		var allowed []string
+		for _, tt := range spec.AllocTypes {
+			tt := tt
+			_ = safeSpec(func() { allowed = append(allowed, typeKey(env.resolveType(tt))) })
+		}
+		s.bumpAllocTyped(allowed, !spec.HasMod)
+	}
 	for _, r := range s.pendingRefs {
 		s.assume(and(app("<=", "0", r), app("<", r, s.alloc)))
 	}
@@ -419,7 +503,7 @@ func (s *State) execInvoke(c *ssa.CallCommon, args []Val, where string) Val {
 		return s.freshResult(c, "ctx")
 	}
 	s.eng.assumptionsUsed["interface method "+full+" is treated as opaque and effect-free on the program's heap"] = true
-	s.bumpAlloc()
+	s.bumpAllocTyped(resultTags(c), false)
 	return s.freshResult(c, "invoke:"+m.Name())
 }
 
